@@ -45,3 +45,12 @@ pub fn unzip_pairs(v: Vec<(MatchType, String)>) -> (r: (Vec<MatchType>, Vec<Stri
 {
     v.into_iter().unzip()
 }
+
+// serde_yaml::Number: an integer that fits i64, else a float (what as_i64 / as_f64 report; trusted)
+#[verifier::external_type_specification]
+#[verifier::external_body]
+pub struct ExYamlNumber(serde_yaml::Number);
+pub uninterp spec fn number_i64(n: &serde_yaml::Number) -> Option<i64>;
+pub uninterp spec fn number_f64(n: &serde_yaml::Number) -> Option<f64>;
+pub assume_specification[ serde_yaml::Number::as_i64 ](n: &serde_yaml::Number) -> (r: Option<i64>) ensures r == number_i64(n);
+pub assume_specification[ serde_yaml::Number::as_f64 ](n: &serde_yaml::Number) -> (r: Option<f64>) ensures r == number_f64(n);
